@@ -48,7 +48,7 @@ CLAIMED["C18"] = {
 }
 
 CLAIMED["C08"] = {
-    "text": "Seeded search over interleavings of format(), the to_*_string() helpers and from_format() (random token sequences with literals and escapes, full round-trip formats, partial formats, localized names in the 27 locales, mismatching strings) under a simulated clock biased to the last/first instants of a day, month or year in the zone the caller asks for, set_locale flips, restarts and both helper backends. Each result must equal the cold re-execution under one admissible (clock, locale) assignment; format() output must equal an independent renderer built on the standard library and the locale data; from_format(format()) must return the value's fields and offset; fields the format does not supply must come from the simulated now rendered in the requested zone (and the completed wall time follows the construction rules); mismatching strings must raise ValueError; compiled and pure-Python backends must agree.",
+    "text": "Seeded search over interleavings of format(), the to_*_string() helpers and from_format() (random token sequences with literals and escapes, full round-trip formats, partial formats, localized names in the 27 locales, mismatching strings) under a simulated clock biased to the last/first instants of a day, month or year in the zone the caller asks for, set_locale flips, restarts and both helper backends. Each result must equal the cold re-execution under one admissible (clock, locale) assignment; format() output must equal an independent renderer built on the standard library and the locale data; from_format(format()) must return the value's fields and offset; fields the format does not supply must come from the simulated now rendered in the requested zone (and the completed wall time follows the construction rules; a weekday-only format is completed to the day of now's week that falls on that weekday); mismatching strings must raise ValueError; compiled and pure-Python backends must agree.",
     "ref": "DESIGN.md §5 C08",
     "note": "trusts: stdlib strftime-free integer rendering + locale data tables as reference; formats are generated with literal separators so tokenisation is unambiguous; ordinal tokens (Do, Mo, ...) and LT..LLLL are decided by L1 and the round trip only; zone-name formats are not asserted for repeated wall times (a name cannot carry the occurrence)",
 }
@@ -66,7 +66,7 @@ CLAIMED["C05"] = {
 }
 
 CLAIMED["C14"] = {
-    "text": "Narrow claim - the facets of round-trip fidelity that meet a seam. Restart: pickle bytes produced inside the simulated (warm, concurrent) process are loaded in a fresh fork of a pristine copy of the worker that shares no zone objects or caches with the sender, and must observe exactly like the original. Concurrency: copy, deepcopy and pickle of Durations/Intervals shared between threads while others read their lazily cached slots, and of DateTimes while the nemesis clears the zone cache. Identity: copy == original (for the types the statement names) and copy - original == 0 whatever tzinfo objects the copy shares with the original. Every copy must observe like a second, untouched instance of the value (type, fields, fold of repeated wall times, offset, zone, all duration components and sign, interval endpoints and absolute flag).",
+    "text": "Narrow claim - the facets of round-trip fidelity that meet a seam. Restart: pickle bytes produced inside the simulated (warm, concurrent) process are loaded in a fresh fork of a pristine copy of the worker that shares no zone objects or caches with the sender and is configured differently (another local zone, default locale and week; the sender's local zone is often the very zone of its values), and must observe exactly like the original. Concurrency: copy, deepcopy and pickle of Durations/Intervals shared between threads while others read their lazily cached slots, and of DateTimes while the nemesis clears the zone cache. Identity: copy == original (for the types the statement names) and copy - original == 0 whatever tzinfo objects the copy shares with the original. Every copy must observe like a second, untouched instance of the value (type, fields, fold of repeated wall times, offset, zone, all duration components and sign, interval endpoints and absolute flag).",
     "ref": "DESIGN.md §5 C14",
     "note": "trusts: the observation function as the definition of 'indistinguishable through public accessors'; == is asserted only for Date, Time, Duration and for Intervals without an endpoint on a repeated wall time (PEP 495 makes such aware datetimes unequal across tzinfo objects); the input-universal part (all values x protocols) is sampled, not enumerated",
 }
@@ -136,7 +136,7 @@ def main():
             "kind_free_text": "in-process deterministic simulator: real pendulum code run by real threads under a seeded baton-passing scheduler (sys.settrace yield points), simulated clock (time_machine), fake file system/environment, nemesis for configuration flips and faults, cold quiescent re-execution as linearizability oracle, ddmin minimiser, JSON replay files",
         }],
         "checks": checks,
-        "notes": "fix: commits in /repo (unguarded defect repairs): %s. Known findings: /verif/known_findings.json. Self-tests: selftest/determinism.py, selftest/sensitivity.py." % (", ".join(fixes) or "none"),
+        "notes": "fix: commits in /repo (unguarded defect repairs): %s. Known findings: /verif/known_findings.json. Every check runs against the compiled helpers rebuilt from /repo/rust (never a stale _pendulum*.so in /repo/src) with a share of the runs on the pure-Python helpers; one run in four draws its zones from all tzdata names (evidence key zone_swarm). Self-tests: selftest/determinism.py, selftest/sensitivity.py (123 planted changes), selftest/benign.py (12 behaviour-preserving refactorings)." % (", ".join(fixes) or "none"),
         "not_applicable": na,
     }
     with open(os.path.join(ROOT, "MANIFEST.json"), "w") as f:
